@@ -37,10 +37,8 @@ CLAIMED = {
     "C03": ("All reason-code tables against the specification tables for every byte value; decode_vli for all inputs of 0..5 bytes; the framing state machine as per-state step lemmas "
             "from an arbitrary decoder state (type byte; remaining length with 0..3 buffered continuation bytes incl. rejection of a fourth one for every chunking and rejection of an "
             "oversize announcement before any body byte is buffered, for any maximum; body accumulation for concrete small lengths with symbolic contents, the body decoder seeing exactly "
-            "the frame once); the bounds-checked primitive readers (binary, string, u16/u32/bool properties) on 0..6 hostile bytes incl. duplicates; a new connection always starts from a fresh decoder; the error state is absorbing; "
-            "the MQTT5 PUBLISH body decoder on hostile bodies of concrete small length (topic, packet id iff QoS>0, property length as VBI, property section, payload: accepted iff the property length is well-formed and fits the bytes after it, "
-            "never a panic; flags, topic, id, payload decoded faithfully; the property decoder -- recorded -- sees exactly the announced section).",
-            "Outside the claim: the other body decoders behind decode_packet and the per-packet property decoders (replaced by a deterministic recorder in the framing harnesses; the MQTT5 body decoders reach no verdict within 30 min, the 3.1.1 CONNACK decoder is a "
+            "the frame once); the bounds-checked primitive readers (binary, string, u16/u32/bool properties) on 0..6 hostile bytes incl. duplicates; a new connection always starts from a fresh decoder; the error state is absorbing.",
+            "Outside the claim: the fifteen body decoders behind decode_packet (the MQTT5 PUBLISH body-framing harnesses c03_body_publish5_* are thorough-tier stretch harnesses without a verdict so far: 12 GB within 100 s; replaced by a deterministic recorder in the framing harnesses; the MQTT5 body decoders reach no verdict within 30 min, the 3.1.1 CONNACK decoder is a "
             "thorough-tier harness), therefore 'decoded to exactly that content'; the driver loop decode_bytes as a whole (stretch harnesses on 2-4 byte streams reach no verdict: chunking invariance rests on the per-state step lemmas "
             "plus an induction argument on paper); bodies longer than 4 bytes.", "5 C03", TECH),
     "C04": ("Mechanism level: a first transmission is rejected by validation unless DUP=0 and no id; at disconnection every in-flight QoS1/2 publish (awaiting PUBACK/PUBREC, PUBREL queued "
